@@ -30,11 +30,14 @@ static void record(TestReporter *reporter, const char *file, int line, int resul
         outlen += snprintf(outbuf + outlen, sizeof outbuf - outlen, "%scU:%d", outlen ? " " : "", result ? 1 : 0);
 }
 
+/* the names are prefixes of one another: an expectation is found by the whole name */
 static intptr_t f0(void) { return mock(); }
 static intptr_t f1(intptr_t a) { return mock(a); }
-static intptr_t f2(intptr_t a, intptr_t b) { return mock(a, b); }
-static intptr_t f3(intptr_t a, intptr_t b, intptr_t c) { return mock(a, b, c); }
-static const char *fnames[4] = { "f0", "f1", "f2", "f3" };
+static intptr_t f1_b(intptr_t a, intptr_t b) { return mock(a, b); }
+static intptr_t f1_bc(intptr_t a, intptr_t b, intptr_t c) { return mock(a, b, c); }
+#define f2 f1_b
+#define f3 f1_bc
+static const char *fnames[4] = { "f0", "f1", "f1_b", "f1_bc" };
 static const char *pnames[3] = { "a", "b", "c" };
 
 typedef struct { int g; intptr_t a[3]; } SideCall;
